@@ -6,7 +6,7 @@ import ast
 from .. import shape
 from ..flow import call_name, dotted, norm, writes_in
 from ..index import AnalysisError, walk_local
-from ..lib import defs_of
+from ..lib import cfg_of, defs_of, nodes_with, witness
 from .C07 import _alternatives, _flow_into, _m, _reaches, _rm, _selected_by
 
 FP = "pint.delegates.formatter.plain"
@@ -144,6 +144,21 @@ def exponent_renderer_rule(ck, ix):
                     n += 1
                     ck.check(guard, "G-EXH", f"exponent-renderer|{mod.split('.')[-1]}.{f.name}|n-format-guarded-for-Fraction", f.loc(js), "a Fraction is mapped to int/float before the 'n' format",
                              f"`{{{js.value.id}:n}}` in {f.name} is applied without mapping a Fraction first: exponents of Fraction registries cannot be rendered")
+                    if guard:
+                        # on the CFG: EVERY Fraction is mapped - a path from the entry to the format site that neither
+                        # re-binds the name nor takes an edge on which `isinstance(name, Fraction)` is known false
+                        # carries an unmapped Fraction into the 'n' format (e.g. only non-integral ones are converted)
+                        from .. import shape as _shf
+                        cfgf = cfg_of(f)
+                        nm = js.value.id
+                        is_frac = lambda a_, nm=nm: isinstance(a_, ast.Call) and call_name(a_) == "isinstance" and len(a_.args) == 2 and norm(a_.args[0]) == nm and "Fraction" in norm(a_.args[1])
+                        safe = _shf.guard_edges(cfgf, is_frac, want=False)
+                        rebinds = [x.id for x in cfgf.nodes if x.kind == "stmt" and isinstance(x.ast, (ast.Assign, ast.AugAssign, ast.AnnAssign))
+                                   and any(isinstance(t_, ast.Name) and t_.id == nm for t_ in (x.ast.targets if isinstance(x.ast, ast.Assign) else [x.ast.target]))]
+                        sites = nodes_with(cfgf, lambda x, js=js: x is js)
+                        pth = cfgf.path(cfgf.entry, sites, avoid=set(rebinds), avoid_edges=set(safe)) if sites else None
+                        ck.check(pth is None, "G-EXH", f"exponent-renderer|{mod.split('.')[-1]}.{f.name}|every-Fraction-is-mapped", f.loc(js), "no unmapped Fraction reaches the 'n' format",
+                                 f"a Fraction `{nm}` can reach `{{{nm}:n}}` without being mapped to int/float (only some Fractions are converted): Fraction.__format__ rejects 'n', so integral exponents such as m**2 of a Fraction registry cannot be formatted", witness(cfgf, pth))
     ck.floor("G-EXH", n, 2, "exponent render sites")
 
 def run(ck, ix, tier):
